@@ -340,14 +340,14 @@ def ledger_history_layer(ctx, nledgers):
             c2 = ledgers.connect(*ledgers.load(text))
             try:
                 cur = c2.execute(q)
-                fresh[q] = proto.show_result(cur.description, cur.fetchall(), proto.Opaque())
+                fresh[q] = proto.show_result(cur.description, cur.fetchall(), proto.Content())
             except Exception as exc:  # noqa: BLE001
                 fresh[q] = impl.classify_exc(exc)
         order = rng.shuffle(list(LEDGER_QUERIES) * 2)
         for q in order:
             try:
                 cur = conn.execute(q)
-                got = proto.show_result(cur.description, cur.fetchall(), proto.Opaque())
+                got = proto.show_result(cur.description, cur.fetchall(), proto.Content())
             except Exception as exc:  # noqa: BLE001
                 got = impl.classify_exc(exc)
             ctx.evaluations += 1
